@@ -36,7 +36,9 @@ VARIABLES
   wbuf,         \* [worker -> Seq of docs]  in-memory segment under construction
   wcur,         \* [worker -> Nat]          delete cursor (number of consumed delete ops)
   wfresh,       \* [worker -> BOOLEAN]      no batch peeked yet for the current segment
-  unc, com,     \* registers: sets of entries [sid, docs, alive, cur, delop]
+  unc, com,     \* registers: sets of entries [sid, docs, alive, cur, delop, fdel]
+                \* (delop / fdel: opstamp and deleted-document count of the segment's .del FILE;
+                \*  deletes found at segment creation live in memory only until the next purge)
   meta,         \* persisted commit: [segs, opstamp, payload]
   merges,       \* set of merge operations
   prepared,     \* 0 or the opstamp of a PreparedCommit the user thread holds
@@ -168,7 +170,7 @@ WTake(w) ==
 WFlush(w) ==
   /\ wopen /\ wbuf[w] # <<>>
   /\ LET res == AdvanceCreate(wbuf[w], Ids(wbuf[w]), wcur[w], MaxOp(wbuf[w]))
-         e == [sid |-> nextSid, docs |-> wbuf[w], alive |-> res.alive, cur |-> res.cur, delop |-> 0]
+         e == [sid |-> nextSid, docs |-> wbuf[w], alive |-> res.alive, cur |-> res.cur, delop |-> 0, fdel |-> 0]
      IN unc' = unc \cup {e}
   /\ dqFlushed' = Len(dq)
   /\ nextSid' = nextSid + 1
@@ -178,13 +180,17 @@ WFlush(w) ==
 AllJoined == chan = <<>> /\ \A w \in Workers : wbuf[w] = <<>>
 
 (* ------------------------------- commit ------------------------------- *)
-\* advance_deletes: the early exit on an equal delete opstamp, then the cursor walk; a .del file is written (delop)
-\* only when the number of deleted documents grew
+\* advance_deletes: the early exit on an equal delete opstamp, then the cursor walk; a new .del
+\* file (named by the target opstamp) is written when the segment now has more deleted documents
+\* than its previous .del file records - this includes deletes that were found at segment
+\* creation and so far only lived in the in-memory bitset
 Purge(e, target) ==
-  IF e.delop = target THEN e
+  IF e.delop = target /\ e.fdel > 0 THEN e
   ELSE LET r == Advance(e.docs, e.alive, e.cur, target, FALSE)
+           ndel == Len(e.docs) - Cardinality(r.alive)
        IN [e EXCEPT !.alive = r.alive, !.cur = r.cur,
-                    !.delop = IF r.alive # e.alive THEN target ELSE e.delop]
+                    !.delop = IF ndel > e.fdel THEN target ELSE e.delop,
+                    !.fdel = IF ndel > e.fdel THEN ndel ELSE e.fdel]
 
 \* prepare_commit: close the pipeline, join the workers (modelled as an enabling condition:
 \* the workers have drained and cut), re-spawn them with fresh cursors, draw the commit stamp
@@ -200,7 +206,7 @@ CommitTask(op, payload) ==
   LET purged == {Purge(e, op) : e \in unc \cup com}
       kept == {e \in purged : e.alive # {}}
   IN /\ com' = kept /\ unc' = {}
-     /\ meta' = [segs |-> {[sid |-> e.sid, docs |-> e.docs, alive |-> e.alive] : e \in kept},
+     /\ meta' = [segs |-> {[sid |-> e.sid, docs |-> e.docs, alive |-> e.alive, delop |-> e.delop] : e \in kept},
                  opstamp |-> op, payload |-> payload]
      /\ lastRet' = [kind |-> "commit", op |-> op, at |-> nOps + 1]
      /\ commd' = pend
@@ -228,7 +234,7 @@ FreshWriter ==
   /\ chan' = <<>> /\ wbuf' = [w \in Workers |-> <<>>] /\ wcur' = [w \in Workers |-> 0]
   /\ wfresh' = [w \in Workers |-> TRUE]
   /\ unc' = {}
-  /\ com' = {[sid |-> s.sid, docs |-> s.docs, alive |-> s.alive, cur |-> 0, delop |-> 0] : s \in meta.segs}
+  /\ com' = {[sid |-> s.sid, docs |-> s.docs, alive |-> s.alive, cur |-> 0, delop |-> s.delop, fdel |-> Len(s.docs) - Cardinality(s.alive)] : s \in meta.segs}
   /\ merges' = {}    \* merges of the killed updater can no longer be applied
   /\ pend' = commd /\ prepared' = NotPrepared
 
@@ -259,7 +265,7 @@ UNewWriter ==
 
 (* ------------------------------- merges ------------------------------- *)
 InMerge == UNION {m.sids : m \in merges}
-NoEntry == [sid |-> 0, docs |-> <<>>, alive |-> {}, cur |-> 0, delop |-> 0]
+NoEntry == [sid |-> 0, docs |-> <<>>, alive |-> {}, cur |-> 0, delop |-> 0, fdel |-> 0]
 
 StartMerge(reg, S, target) ==
   /\ wopen /\ Cardinality(S) = 2 /\ S \subseteq reg /\ {e.sid : e \in S} \cap InMerge = {}
@@ -295,7 +301,7 @@ RunMerge(m) ==
          ord == SeqOfSet(adv)
          liveDocs(e) == SelectSeq(e.docs, LAMBDA d : d.id \in e.alive)
          docs == Concat([i \in 1..Len(ord) |-> liveDocs(ord[i])])
-         res == [sid |-> m.mid, docs |-> docs, alive |-> Ids(docs), cur |-> ord[1].cur, delop |-> 0]
+         res == [sid |-> m.mid, docs |-> docs, alive |-> Ids(docs), cur |-> ord[1].cur, delop |-> 0, fdel |-> 0]
      IN merges' = (merges \ {m}) \cup {[m EXCEPT !.res = res, !.st = IF docs = <<>> THEN "empty" ELSE "done"]}
   /\ UNCHANGED <<stamp, wCommitted, dq, dqFlushed, chan, wbuf, wcur, wfresh, unc, com, meta, prepared, wopen, nextId, nextSid, nOps, pend, commd, lastRet, kf>>
 
@@ -316,7 +322,7 @@ EndMerge(m) ==
              ELSE IF inCom THEN
                   /\ com' = {x \in com : x.sid \notin m.sids} \cup (IF e.alive = {} THEN {} ELSE {e})
                   /\ meta' = [meta EXCEPT !.segs = {s \in meta.segs : s.sid \notin m.sids}
-                                   \cup (IF e.alive = {} THEN {} ELSE {[sid |-> e.sid, docs |-> e.docs, alive |-> e.alive]})]
+                                   \cup (IF e.alive = {} THEN {} ELSE {[sid |-> e.sid, docs |-> e.docs, alive |-> e.alive, delop |-> e.delop]})]
                   /\ UNCHANGED unc
              ELSE UNCHANGED <<unc, com, meta>>     \* the sources vanished: merge discarded
   /\ UNCHANGED <<stamp, wCommitted, dq, dqFlushed, chan, wbuf, wcur, wfresh, prepared, wopen, nextId, nextSid, nOps, pend, commd, lastRet, kf>>
